@@ -12,6 +12,7 @@ package main
 // traffic must get through) -> optionally a second down/up round.
 
 import (
+	"crypto/tls"
 	"fmt"
 	"net"
 	"strings"
@@ -24,6 +25,8 @@ import (
 )
 
 func init() {
+	// applications register their message types for the vtproto fast path, as the library's documentation asks
+	remote.RegisterType(&remote.TestMessage{})
 	register(&prop{
 		id:    "C17",
 		level: "exploration",
@@ -55,9 +58,11 @@ type netRecv struct {
 	got []netGot
 }
 type netGot struct {
-	data   string
+	msg    *remote.TestMessage // kept as delivered: what it says is read when the phase is judged
 	sender string
 }
+
+func (g netGot) data() string { return string(g.msg.Data) }
 
 func (a *netRecv) Receive(c *actor.Context) {
 	if m, ok := c.Message().(*remote.TestMessage); ok {
@@ -67,7 +72,7 @@ func (a *netRecv) Receive(c *actor.Context) {
 			return
 		}
 		a.mu.Lock()
-		a.got = append(a.got, netGot{data: d, sender: pidStr(c.Sender())})
+		a.got = append(a.got, netGot{msg: m, sender: pidStr(c.Sender())})
 		a.mu.Unlock()
 	}
 }
@@ -86,14 +91,10 @@ type c17Node struct {
 	pids  []*actor.PID
 }
 
-func c17StartNode(addr string, nTargets int, useTLS bool) (*c17Node, error) {
+func c17StartNode(addr string, nTargets int, tc *tls.Config) (*c17Node, error) {
 	nd := &c17Node{}
 	cfg := remote.NewConfig()
-	if useTLS {
-		tc := harnessTLS()
-		if tc == nil {
-			return nil, fmt.Errorf("cannot create a TLS configuration")
-		}
+	if tc != nil {
 		cfg = cfg.WithTLS(tc)
 	}
 	nd.rem = remote.New(addr, cfg)
@@ -138,13 +139,23 @@ func c17Run(c *caseCtx) (res caseResult) {
 	rounds := 1 + r.Intn(2)
 	burst := 1 + r.Intn(8)
 	res.Desc = fmt.Sprintf(c.mode+" senders=%d targets=%d per=%d down/up rounds=%d burst=%d", nS, nT, per, rounds, burst)
-	useTLS := c.mode == "tcp-tls"
-	n1, err := c17StartNode(a1, 1, useTLS)
+	var tls1, tls2, tls3 *tls.Config
+	if c.mode == "tcp-tls" {
+		// mutually verifying certificates from a private CA: node 1 is known under both names, node 2 only as
+		// 127.0.0.1, node 3 only as "localhost"
+		var terr error
+		tls1, tls2, tls3, terr = namedTLS()
+		if terr != nil {
+			res.inconclusive("cannot create TLS configurations: %v", terr)
+			return
+		}
+	}
+	n1, err := c17StartNode(a1, 1, tls1)
 	if err != nil {
 		res.inconclusive("node 1: %v", err)
 		return
 	}
-	n2, err := c17StartNode(a2, nT, useTLS)
+	n2, err := c17StartNode(a2, nT, tls2)
 	if err != nil {
 		res.inconclusive("node 2: %v", err)
 		return
@@ -163,7 +174,7 @@ func c17Run(c *caseCtx) (res caseResult) {
 		n1.eng.Send(target(0), &remote.TestMessage{Data: []byte(probe)})
 		if !waitFor(wd, func() bool {
 			for _, x := range node2.recvs[0].snapshot() {
-				if x.data == probe {
+				if x.data() == probe {
 					return true
 				}
 			}
@@ -239,7 +250,7 @@ func c17Run(c *caseCtx) (res caseResult) {
 			t := t
 			if !waitFor(wd, func() bool {
 				for _, x := range node2.recvs[t].snapshot() {
-					if x.data == fmt.Sprintf("fin-%d", g) {
+					if x.data() == fmt.Sprintf("fin-%d", g) {
 						return true
 					}
 				}
@@ -258,20 +269,20 @@ func c17Run(c *caseCtx) (res caseResult) {
 			last := map[int]int{}
 			seen := map[string]int{}
 			for _, x := range node2.recvs[t].snapshot() {
-				if !strings.HasPrefix(x.data, prefix) {
+				if !strings.HasPrefix(x.data(), prefix) {
 					continue
 				}
 				var s, i int
-				if strings.HasPrefix(x.data[len(prefix):], "b") {
+				if strings.HasPrefix(x.data()[len(prefix):], "b") {
 					var even int
-					fmt.Sscanf(x.data[len(prefix):], "b%d-%d", &even, &i)
-					seen[x.data]++
+					fmt.Sscanf(x.data()[len(prefix):], "b%d-%d", &even, &i)
+					seen[x.data()]++
 					burstGot++
-					if seen[x.data] > 1 {
-						res.violate("%s: burst message %s delivered %d times", phase, x.data, seen[x.data])
+					if seen[x.data()] > 1 {
+						res.violate("%s: burst message %s delivered %d times", phase, x.data(), seen[x.data()])
 					}
 					if i%nT != t {
-						res.violate("%s: burst message %s arrived at target %d", phase, x.data, t)
+						res.violate("%s: burst message %s arrived at target %d", phase, x.data(), t)
 					}
 					if i < lastBurst[t] {
 						res.violate("%s: target %d received burst message %d after %d (order)", phase, t, i, lastBurst[t])
@@ -282,25 +293,25 @@ func c17Run(c *caseCtx) (res caseResult) {
 						want = pidStr(burstSender)
 					}
 					if x.sender != want {
-						res.violate("%s: burst message %s arrived with sender %q, sent with %q", phase, x.data, x.sender, want)
+						res.violate("%s: burst message %s arrived with sender %q, sent with %q", phase, x.data(), x.sender, want)
 					}
 					continue
 				}
-				fmt.Sscanf(x.data[len(prefix):], "s%d-%d", &s, &i)
-				seen[x.data]++
+				fmt.Sscanf(x.data()[len(prefix):], "s%d-%d", &s, &i)
+				seen[x.data()]++
 				total++
-				if seen[x.data] > 1 {
-					res.violate("%s: message %s delivered %d times", phase, x.data, seen[x.data])
+				if seen[x.data()] > 1 {
+					res.violate("%s: message %s delivered %d times", phase, x.data(), seen[x.data()])
 				}
 				if (s+i)%nT != t {
-					res.violate("%s: message %s arrived at target %d", phase, x.data, t)
+					res.violate("%s: message %s arrived at target %d", phase, x.data(), t)
 				}
 				if l, ok := last[s]; ok && i < l {
-					res.violate("%s: target %d received %s after message %d of the same sender (order)", phase, t, x.data, l)
+					res.violate("%s: target %d received %s after message %d of the same sender (order)", phase, t, x.data(), l)
 				}
 				last[s] = i
 				if x.sender != pidStr(senders[s]) {
-					res.violate("%s: message %s arrived with sender %q, sent with %q", phase, x.data, x.sender, pidStr(senders[s]))
+					res.violate("%s: message %s arrived with sender %q, sent with %q", phase, x.data(), x.sender, pidStr(senders[s]))
 				}
 			}
 		}
@@ -316,6 +327,29 @@ func c17Run(c *caseCtx) (res caseResult) {
 	}
 	if !upPhase("first up phase", n2) {
 		return
+	}
+	if tls3 != nil {
+		// a second peer, reachable under another host name: every peer address gets its own connection
+		a3 := "localhost:" + strings.Split(freeAddrs(c, 3)[2], ":")[1]
+		n3, err := c17StartNode(a3, 1, tls3)
+		if err != nil {
+			res.inconclusive("node 3: %v", err)
+			return
+		}
+		for i := 0; i < 20; i++ {
+			n1.eng.Send(actor.NewPID(a3, "t/0"), &remote.TestMessage{Data: []byte(fmt.Sprintf("third-%d", i))})
+		}
+		if !waitFor(wd, func() bool { return len(n3.recvs[0].snapshot()) >= 20 }) {
+			res.violate("messages to a second TLS peer (%s, reachable and with a valid certificate for that name) were not delivered: %d of 20 arrived, %d RemoteUnreachableEvents for it", a3, len(n3.recvs[0].snapshot()), unreachableCount(n1.mon, a3))
+		}
+		for i, x := range n3.recvs[0].snapshot() {
+			if i < 20 && x.data() != fmt.Sprintf("third-%d", i) {
+				res.violate("second TLS peer: delivery %d is %q", i, x.data())
+				break
+			}
+		}
+		res.count("second_tls_peer_cases", 1)
+		n3.rem.Stop()
 	}
 	cur := n2
 	for round := 0; round < rounds; round++ {
@@ -439,7 +473,7 @@ func c17Run(c *caseCtx) (res caseResult) {
 		res.count("down_phases", 1)
 		res.count("dead_letters_down", int64(burst))
 		// the peer comes back on the same address
-		nn, err := c17StartNode(a2, nT, useTLS)
+		nn, err := c17StartNode(a2, nT, tls2)
 		if err != nil {
 			res.inconclusive("restarting the peer: %v", err)
 			return
